@@ -1395,7 +1395,7 @@ func bsRun(t *rapid.T, st *vkit.Stats, prof string) {
 	add("advance", w["advance"], m.ruleAdvance)
 	add("setCleaner", w["setCleaner"], m.ruleSetCleaner)
 	add("range", w["range"], m.ruleRange)
-	t.Repeat(actions)
+	t.Repeat(vkit.NoStarve(actions, nil))
 
 	// ---- teardown in a drawn order, then the leak oracle
 	m.tr("teardown")
